@@ -24,7 +24,9 @@ TECHNIQUE = "abstract interpretation of process_all_requirements / install_requi
 
 PROC = "requirements.py::process_all_requirements"
 INST = "requirements.py::install_requirements"
-LINES = ["foo", "foo==1.0.0", "foo==2.0.0", "foo==2.0", "foo==10.0.0", "# just a comment", "", "foo>=1.5", "foo==1.5.0  # pin (see issue), works with >=1.5, <3", "foo~=1.0"]
+LINES = ["foo", "foo==1.0.0", "foo==2.0.0", "foo==2.0", "foo==10.0.0", "# just a comment", "", "foo>=1.5", "foo==1.5.0  # pin (see issue), works with >=1.5, <3", "foo~=1.0",
+         # malformed lines: no package name; a pin that is not a version; (pip accepts blanks around ==)
+         "==1.0", "foo==latest", "foo ==3.0.0"]
 
 
 def _version_summary(interp, node, args, kwargs, cfg, out):
@@ -35,6 +37,15 @@ def _version_summary(interp, node, args, kwargs, cfg, out):
             out.add("raise", cfg.set("$exc", ExcV("ValueError", "InvalidVersion")))
             return []
     return [(cfg, App("Version", tuple(args)))]
+
+
+def _installed_version(interp, node, args, kwargs, cfg, out):
+    """importlib.metadata.version: nothing is installed in the model; an empty distribution name is a ValueError (as the library documents)."""
+    if args and isinstance(args[0], Const) and args[0].v == "":
+        out.add("raise", cfg.set("$exc", ExcV("ValueError", "A distribution name is required.")))
+    else:
+        out.add("raise", cfg.set("$exc", ExcV("PackageNotFoundError", "not installed")))
+    return []
 
 
 def _merge(program, files, consts):
@@ -53,9 +64,13 @@ def _merge(program, files, consts):
         idx = paths.index(fp.oid[5:])
         return [(cfg, ListV([Const(l + "\n") for l in files[idx]]))]
 
-    pol = FlowPolicy(program, may_raise_all=False, cancel=False, globals_=dict(consts),
+    from ..absint import FuncV
+    glob_ = dict(consts)
+    glob_["get_installed_version"] = FuncV(program.func("requirements.py::get_installed_version"), name="get_installed_version")
+    pol = FlowPolicy(program, may_raise_all=False, cancel=False, globals_=glob_,
                      summaries={"glob.glob": glob_glob, "open": open_, "requirements_fp.readlines": readlines, "Version": _version_summary,
-                                "get_installed_version": lambda i, n, a, k, c, o: [(c, NONE)]})
+                                "installed_version": _installed_version},
+                     inline={"get_installed_version"})
     pol.loop_unroll = 2
     out = run_flow(program, PROC, pol, args={"pyscript_folder": Const("/cfg/pyscript"), "requirements_paths": ListV([Const("")], "tuple"),
                                              "requirements_file": Const("requirements.txt")})
@@ -90,7 +105,14 @@ def _expected_merge(lines, unpinned):
         if ">" in l or "<" in l or "," in l or l.count("==") > 1 or "~=" in l or "!=" in l:
             continue
         if "==" in l:
-            pins.append(l.split("==")[1])
+            name, pin = (x.strip() for x in l.split("=="))
+            if name != "foo":
+                continue  # no package name: not a requirement
+            try:
+                Version(pin)
+            except Exception:  # noqa - not a version: an unsupported specifier, ignored
+                continue
+            pins.append(pin)
         else:
             has_unpinned = True
     if pins:
@@ -212,6 +234,42 @@ def run(ctx):
                     bad = f"the entry is updated to {d!r}: the installed-packages record {rec!r} is gone, pyscript then treats its own packages as installed by someone else and never updates them"
             ctx.check(bad is None, "R20.6", uid, f"entry created from {source}, imported config {'changes a flag' if imp_has_flag else 'changes apps'}",
                       msg=f"async_step_import (entry source {source!r}, imported config {imp!r}): {bad}", key=f"import keeps record {source} {imp_has_flag}", node=program.func(uid), rel="config_flow.py")
+
+    # the options flow (UI entries) rewrites the entry data as well
+    uid2 = "config_flow.py::PyscriptOptionsConfigFlow.async_step_init"
+    bool_all = program.module_const("config_flow.py", "CONF_BOOL_ALL")
+    flags = [consts[e.id].v for e in bool_all.elts if isinstance(e, ast.Name) and e.id in consts] if bool_all is not None and hasattr(bool_all, "elts") else []
+    if not flags:
+        raise AnalysisError("config_flow.CONF_BOOL_ALL not resolvable")
+    rec = DictV([(Const("foo"), Const("1.0.0"))])
+    data = DictV([(Const(f), Const(False)) for f in flags] + [(Const(CIP), rec), (Const("apps"), DictV([(Const("a"), Const(1))]))])
+    user_input = DictV([(Const(f), Const(i == 0)) for i, f in enumerate(flags)])
+    stored = []
+
+    def upd2(i, n, a, k, c, o, stored=stored):
+        stored.append(k.get("data"))
+        return [(c, NONE)]
+
+    pol = FlowPolicy(program, may_raise_all=False, cancel=False, globals_={**dict(consts), "SOURCE_IMPORT": Const("import"), "DOMAIN": Const("pyscript"),
+                                                                          "CONF_BOOL_ALL": ListV(tuple(Const(f) for f in flags), "list")},
+                     summaries={"self.hass.config_entries.async_update_entry": upd2, "self.async_create_entry": lambda i, n, a, k, c, o: [(c, Sym(("created",)))],
+                                "PYSCRIPT_SCHEMA": lambda i, n, a, k, c, o: [(c, DictV(a[0].items) if a and isinstance(a[0], DictV) else Sym(("schema",)))]})
+    pol.loop_unroll = 6
+    out = run_flow(program, uid2, pol, args={"self": ObjV("self", "PyscriptOptionsConfigFlow"), "user_input": user_input},
+                   heap={"self.config_entry": ObjV("entry", "ConfigEntry"), "entry.data": data, "entry.source": Const("user")})
+    bad = None
+    if not exits(out) or not stored:
+        bad = f"the flag change is not stored ({len(stored)} updates)"
+    for d in stored:
+        if not isinstance(d, DictV) or d.get(Const(CIP)) != rec:
+            bad = f"the entry is updated to {d!r}: the installed-packages record {rec!r} is gone"
+        elif d.get(Const("apps")) != data.get(Const("apps")):
+            bad = f"the entry is updated to {d!r}: the rest of the configuration (apps) is gone"
+        elif any(d.get(k) != v for k, v in user_input.items):
+            bad = f"the new flag values are not stored: {d!r}"
+    ctx.check(bad is None, "R20.6", uid2, "options flow: a flag change keeps the record and the rest of the entry data",
+              msg=f"PyscriptOptionsConfigFlow.async_step_init with a changed flag: {bad}; pyscript then treats its own packages as installed by someone else and never updates them",
+              key="options flow keeps record", node=program.func(uid2), rel="config_flow.py")
 
     ctx.rule("R20.1", "nothing is installed without allow_all_imports (the packaging bootstrap excepted)", floor=1)
     f = program.func(INST)
